@@ -292,8 +292,12 @@ def root_reset(prog, fn):
 def run(ctx):
     prog = ctx.prog
     clears = [f for f in prog.fns.values() if f.trait_method() == 'clear']
-    if len(clears) < 7:
-        ctx.anchor_missing(RULE, 'implementations of clear (7 collections)', PROPS, len(clears), 7)
+    # seven named collections: each is an anchor of its own
+    for fam, kind, pred in (('map', 'tree', lambda f: f.self_adt in prog.tree_adts), ('set', 'tree', lambda f: f.self_adt in prog.tree_adts), ('key', 'tree', lambda f: f.self_adt in prog.tree_adts),
+                            ('map', 'list', lambda f: f.self_adt in prog.list_adts), ('set', 'list', lambda f: f.self_adt in prog.list_adts), ('key', 'list', lambda f: f.self_adt in prog.list_adts),
+                            ('seg', 'tree', lambda f: True)):
+        if not any(f.family == fam and pred(f) for f in clears):
+            ctx.anchor_missing(RULE, 'clear of the %s %s' % (fam, kind), PROPS, 0, 1)
     for fn in clears:
         adt = prog.adts.get(fn.self_adt)
         if not adt:
